@@ -161,7 +161,7 @@ func scenC02(x *Exec) {
 			s.Spawn("churn-admin", "admin", "relay1", func() {
 				simrt.Sleep(time.Duration(p.ChurnAfterUs) * time.Microsecond)
 				if err := unrelatedChurn(tbl, p.Churn); err != nil {
-					s.Probe("churn.removal_failed")
+					s.Probe("churn.removal_failed: " + err.Error())
 					s.Logf("churn: %v", err)
 				}
 				s.Probe("c02.unrelated_entries_added_and_removed")
